@@ -16,6 +16,7 @@ import io
 import json
 import os
 import random
+import re
 import shutil
 import sys
 import tempfile
@@ -286,6 +287,16 @@ def call_tool(case, k, want_trace=False):
         so, se = io.StringIO(), io.StringIO()
         real_out, real_err = sys.stdout, sys.stderr
         sys.stdout, sys.stderr = so, se
+        # a logger or handle created at import time keeps the process's original stdout object: file descriptor 1 is
+        # captured too (that is where the protocol stream of the MCP server lives)
+        fd_out = b""
+        try:
+            real_out.flush()
+        except Exception:  # noqa
+            pass
+        fd_saved = os.dup(1)
+        fd_tmp = tempfile.TemporaryFile()
+        os.dup2(fd_tmp.fileno(), 1)
         try:
             with instrumented(faults):
                 try:
@@ -322,6 +333,15 @@ def call_tool(case, k, want_trace=False):
                         code = 1          # the interpreter prints the traceback and exits with status 1
         finally:
             sys.stdout, sys.stderr = real_out, real_err
+            try:
+                real_out.flush()
+            except Exception:  # noqa
+                pass
+            os.dup2(fd_saved, 1)
+            os.close(fd_saved)
+            fd_tmp.seek(0)
+            fd_out = fd_tmp.read()
+            fd_tmp.close()
         after = snapshot(root)
         delta = {"created": sorted(set(after) - set(before)), "removed": sorted(set(before) - set(after)),
                  "altered": sorted(n for n in before if n in after and before[n] != after[n])}
@@ -337,7 +357,7 @@ def call_tool(case, k, want_trace=False):
                 except Exception as e:  # noqa
                     out_doc = {"unreadable": str(e)}
         return {"k": k, "ret": ret if isinstance(ret, str) or ret is None else repr(type(ret)), "ret_is_str": isinstance(ret, str),
-                "exc": exc, "code": code, "stdout": so.getvalue(), "stderr_tail": se.getvalue()[-300:], "delta": delta,
+                "exc": exc, "code": code, "stdout": so.getvalue() + fd_out.decode("utf-8", "replace"), "stderr_tail": se.getvalue()[-300:], "delta": delta,
                 "steps": faults.n, "trace_tail": faults.trace[-6:], "trace_head": faults.trace[:2], "fault_hit": k is not None and faults.n > k,
                 "src": name, "out_rel": out_rel, "out_doc": out_doc, "out_text": out_text,
                 "io_steps": [t for t in faults.trace if t.startswith(("open_w:", "write:", "replace:"))],
@@ -589,6 +609,79 @@ def call_trace(case):
     return r["trace"]
 
 
+# ---------------------------------------------------------------------------------------------- fresh-process probe
+PROBE_SRC = r"""
+import sys, types, json, os
+sys.path.insert(0, os.environ["ADEU_SRC"])
+try:
+    import mcp.server.fastmcp  # noqa
+except Exception:
+    for name in ("mcp", "mcp.server"):
+        if name not in sys.modules:
+            try:
+                __import__(name)
+            except Exception:
+                sys.modules[name] = types.ModuleType(name)
+    m = types.ModuleType("mcp.server.fastmcp")
+    class FastMCP:
+        def __init__(self, *a, **k): pass
+        def tool(self, *a, **k):
+            return lambda f: f
+        def run(self, *a, **k): pass
+    m.FastMCP = FastMCP
+    sys.modules["mcp.server.fastmcp"] = m
+import adeu.server as server          # the import order of the real server process
+from adeu.models import DocumentEdit
+root = sys.argv[1]
+calls = [
+    lambda: server.read_docx(root + "/valid.docx", clean_view=False),
+    lambda: server.read_docx(root + "/broken.docx", clean_view=False),
+    lambda: server.read_docx(root + "/missing.docx", clean_view=True),
+    lambda: server.diff_docx_files(root + "/broken.docx", root + "/valid.docx"),
+    lambda: server.apply_structured_edits(root + "/valid.docx", [DocumentEdit(target_text="quick", new_text="slow", comment="c")], "Q7", None),
+    lambda: server.apply_structured_edits(root + "/broken.docx", [DocumentEdit(target_text="quick", new_text="slow")], "Q7", None),
+    lambda: server.apply_edits_as_markdown(root + "/broken.docx", [DocumentEdit(target_text="quick", new_text="slow")], None),
+    lambda: server.accept_all_changes(root + "/broken.docx", None),
+]
+rets = []
+for c in calls:
+    try:
+        r = c()
+        rets.append(isinstance(r, str))
+    except BaseException as e:
+        rets.append("raised " + type(e).__name__)
+sys.stderr.write("PROBE-RETS " + json.dumps(rets) + "\n")
+"""
+
+
+def stdout_probe():
+    """The MCP tools called in a fresh interpreter that imports adeu.server first, the way the server process does
+    (loggers and handles created at import time see the process's real standard output): file descriptor 1 of that
+    process must stay empty, and every call must return a string. -> list of failure strings"""
+    import subprocess
+
+    root = Path(tempfile.mkdtemp(prefix="c17_probe_"))
+    try:
+        doc, _, _ = gen.gen_document(0, 1, {"hyperlink": 0.0})
+        data = ooxml.write_docx(doc)
+        (root / "valid.docx").write_bytes(data)
+        (root / "broken.docx").write_bytes(b"this is not a zip archive")
+        env = dict(os.environ, ADEU_SRC=str(common.REPO / "src"))
+        p = subprocess.run([sys.executable, "-c", PROBE_SRC, str(root)], capture_output=True, env=env, timeout=120)
+        fails = []
+        if p.stdout:
+            fails.append(f"an MCP tool wrote to standard output of the server process: {p.stdout[:160]!r}")
+        m = re.search(r"PROBE-RETS (\[.*\])", p.stderr.decode("utf-8", "replace"))
+        if not m:
+            return fails + ["harness: probe did not finish: " + p.stderr.decode("utf-8", "replace")[-300:]]
+        for i, r in enumerate(json.loads(m.group(1))):
+            if r is not True:
+                fails.append(f"probe call {i} did not return a string: {r}")
+        return fails
+    finally:
+        shutil.rmtree(root, ignore_errors=True)
+
+
 def run(tier, seed, driver_ok):
     cases = [dict(c, tier=tier) for c in gen_cases(tier, seed)]
     outs = pmap(work, cases, chunksize=1)
@@ -622,6 +715,11 @@ def run(tier, seed, driver_ok):
                                         "all": res["fails"][:4]})
             lines.append(res["line"])
             owners.append((c, res["run"]))
+    probe_fails = stdout_probe()
+    if any(f.startswith("harness:") for f in probe_fails):
+        raise common.HarnessError(probe_fails[-1])
+    for f in probe_fails:
+        oracle_failures.insert(0, {"name": "C17 fresh-process probe (stdout of the server process)", "case": {"tool": "probe", "probe": True}, "what": f})
     compared = 0
     if driver_ok:
         for (c, r), o in zip(owners, common.run_driver_parallel(lines)):
@@ -676,6 +774,9 @@ def replay(payload):
     if "tool" not in case:
         return {"fails": False, "note": "replay file carries no input (proof/correspondence break): " +
                 json.dumps(payload.get("no_longer_checks"), default=str)[:600]}
+    if case.get("probe"):
+        f = stdout_probe()
+        return {"fails": bool(f), "what": f}
     base = base_inputs(common.seed(), case.get("doc_index", 0))
     c = dict(base, **{k: v for k, v in case.items() if k not in ("fault_at", "tier")})
     r = call_tool(c, case.get("fault_at"))
